@@ -49,7 +49,8 @@ def wf(c):
     co, argc, kwonly, varnames, has_va, has_kw, d, ndef = layout(c)
     j, j2 = z3.Ints('wf_j wf_j2')
     return [
-        ('counts', z3.And(argc >= 0, kwonly >= 0, 0 <= c.a.imlevel, c.a.imlevel <= argc)),
+        # imlevel may exceed co_argcount: `def m(*args)` used as a method -- the implied self is taken by *args
+        ('counts', z3.And(argc >= 0, kwonly >= 0, 0 <= c.a.imlevel)),
         ('defaults-shape', z3.And(has_defaults_attr(c.a.func), z3.Or(d == NONE, z3.And(is_seq(d), d == box_seq(unbox_seq(d)))), ndef <= argc)),
         ('layout', L(varnames) >= argc + kwonly + z3.If(has_va, 1, 0) + z3.If(has_kw, 1, 0)),
         ('names-distinct', z3.ForAll([j, j2], z3.Implies(z3.And(0 <= j, j < j2, j2 < L(varnames)), varnames[j] != varnames[j2]))),
@@ -61,7 +62,7 @@ def wf(c):
 def fromFunction_post(c):
     co, argc, kwonly, varnames, has_va, has_kw, d, ndef = layout(c)
     m = c.res
-    im = c.a.imlevel
+    im = z3.If(c.a.imlevel <= argc, c.a.imlevel, 0)     # nothing is skipped when *args absorbs the implied self
     na = argc - im
     nr = z3.If(na - ndef < 0, 0, na - ndef)
     opt = c.h('$dict')[c.h('_optional')[m]]
